@@ -155,6 +155,7 @@ pub fn lockstep(input: &[u8], cfg: &CfgHist, loc: &mut Local) -> Result<(), Stri
         match &real {
             Obs::Ev(k, _, _) => loc.kinds[k.idx()] += 1,
             Obs::Err(e) => *loc.errs.entry(e.name()).or_insert(0) += 1,
+            Obs::Raw(_) => {}
         }
         if !obs_match(&real, &s.obs, s.strings_exact) {
             result = Err(format!(
